@@ -107,6 +107,9 @@ type parkMsg struct {
 	point string // start | want | done
 }
 
+// hookCalls counts invocations of the lock hook (0 = the hook is not compiled in / never reached)
+var hookCalls int
+
 // runGated executes one schedule deterministically.
 func runGated(sl *SchedLine) History {
 	var a AState
@@ -136,6 +139,7 @@ func runGated(sl *SchedLine) History {
 	sawCrit := false
 	segBegin, relHash := "", ""
 	stackage.VerifHook = func(point string, s stackage.Stack) {
+		hookCalls++
 		switch point {
 		case "lock.want":
 			g := current
@@ -343,7 +347,7 @@ func cmdGated(args []string) {
 		}
 		_ = enc.Encode(h)
 	}
-	fmt.Printf("{\"schedules_enumerated\": %d, \"executed\": %d, \"drift\": %d, \"prediction_mismatch\": %d, \"flagged\": %d}\n", total, len(lines), drift, predbad, flagged)
+	fmt.Printf("{\"schedules_enumerated\": %d, \"executed\": %d, \"drift\": %d, \"prediction_mismatch\": %d, \"flagged\": %d, \"hook_calls\": %d}\n", total, len(lines), drift, predbad, flagged, hookCalls)
 }
 
 // ---- free running ------------------------------------------------------------------
